@@ -41,9 +41,13 @@ func TestC07_Known_DelayOverflow(t *testing.T) {
 	for i, dt := range []time.Duration{0, time.Hour} {
 		at := ctx.WithBlockTime(kit.Epoch.Add(dt))
 		err := cs.VerifyPacketCommitment(at, ck.ClientStore(at, "tmsim-1"), c.App.AppCodec(), clienttypes.NewHeight(1, 1), proof, srcName, dstName, 1, val)
-		r.Case(kit.Fmt("pinned-delay-overflow-%d", i), true, func() interface{} {
-			return kit.Fmt("TimeDelay=2^64-1, proof checked %s after processing: honoured=%v", dt, err == nil)
-		})
+		var sample func() interface{}
+		if i == 0 {
+			sample = func() interface{} {
+				return kit.Fmt("TimeDelay=2^64-1, proof checked %s after processing: honoured=%v", dt, err == nil)
+			}
+		}
+		r.Case(kit.Fmt("pinned-delay-overflow-%d", i), true, sample)
 		if err == nil && reproduced == "" {
 			reproduced = kit.Fmt("proof honoured %s after the consensus state was processed although TimeDelay = 2^64-1 ns", dt)
 		}
